@@ -78,6 +78,20 @@ def cross (size off : Nat) (file : Option (List Nat)) (tasks : List (List (List 
 
 def natList (j : Json) : Option (List Nat) := do (← jArr j).mapM jNat
 
+/-- one terminal of a `retry` case: tasks with their operations (exchanges each), `fails` attempts that failed
+before sending — charged to the first operation of the first task (by `retries_total` the counters do not depend
+on who failed when) —, run round-robin until everybody is done -/
+def retryTerm (j : Json) : Option String := do
+  let tasks ← (← fArr j "tasks").mapM natList
+  let fails ← fNat j "fails"
+  let ops : List (List Op) := tasks.mapIdx fun t ns => ns.mapIdx fun i n =>
+    ({ n := n, fails := if t == 0 && i == 0 then List.replicate fails 0 else [] } : Op)
+  let secs := ops.map opSections
+  let steps := (secs.map fun ss => (ss.map (· * 2 + 2)).sum).sum
+  let sched := (List.replicate (steps + 1) (List.range secs.length)).flatten
+  let evs := run (init secs) sched
+  pure (joinSp ((sent evs).map toString) ++ (if check chk0 evs then "" else " bad"))
+
 def step' (j : Json) : Option String := do
   let op ← fStr j "op"
   match op with
@@ -102,6 +116,9 @@ def step' (j : Json) : Option String := do
       | [p, t] => pure (p, t)
       | _ => none
     pure (cross size off file tasks sched)
+  | "retry" =>
+    let ts ← (← fArr j "terms").mapM retryTerm
+    pure (" || ".intercalate ts)
   | "addr" =>
     let no ← fNat j "no"
     pure (if lockCtorOk Consts.addrLo Consts.addrHi no then "ok" else "assert")
